@@ -474,18 +474,58 @@ func ruleDirectSink(c *Ctx, rule string, shorts ...string) {
 				return true
 			}
 			pos = kv.Pos()
-			if vid, ok := unparen(kv.Value).(*ast.Ident); ok && p.TypesInfo.Uses[vid] == wparam {
+			val := unparen(kv.Value)
+			// follow a local that was assigned the parameter
+			for d := 0; d < 3; d++ {
+				vid, ok := val.(*ast.Ident)
+				if !ok || p.TypesInfo.Uses[vid] == wparam {
+					break
+				}
+				var def ast.Expr
+				ast.Inspect(fd.Body, func(m ast.Node) bool {
+					if as, ok := m.(*ast.AssignStmt); ok && len(as.Lhs) == len(as.Rhs) {
+						for i, l := range as.Lhs {
+							if lid, ok := l.(*ast.Ident); ok && p.TypesInfo.ObjectOf(lid) == p.TypesInfo.Uses[vid] {
+								def = as.Rhs[i]
+							}
+						}
+					}
+					return true
+				})
+				if def == nil {
+					break
+				}
+				val = unparen(def)
+			}
+			mentions := false
+			ast.Inspect(val, func(m ast.Node) bool {
+				if id, ok := m.(*ast.Ident); ok && p.TypesInfo.Uses[id] == wparam {
+					mentions = true
+				}
+				return true
+			})
+			call, isCall := val.(*ast.CallExpr)
+			isConv := false
+			if isCall {
+				if tv, ok := p.TypesInfo.Types[call.Fun]; ok && tv.IsType() {
+					isConv = true
+				}
+			}
+			switch {
+			case isCall && !isConv && mentions:
+				verdict = "wrapped: " + exprStr(c.Fset, val)
+			case mentions:
 				verdict = "ok"
-			} else {
-				verdict = "wrapped: " + exprStr(c.Fset, kv.Value)
+			default:
+				verdict = "?"
 			}
 			return true
 		})
 		switch {
 		case verdict == "ok":
 			c.ok(rule, key, pos, "the writer field is the caller's io.Writer itself")
-		case verdict == "":
-			c.und(rule, key, pos, "no writer field initialised in NewWriter's composite literal")
+		case verdict == "" || verdict == "?":
+			c.und(rule, key, pos, "cannot see how NewWriter initialises its writer field from the destination")
 		default:
 			c.bad(rule, key, pos, "the destination is "+verdict+" — the Write methods then count bytes accepted by the wrapper, not bytes emitted: when the underlying writer fails or short-writes, the returned count exceeds what reached it")
 		}
